@@ -18,9 +18,9 @@ from . import c18_ops
 
 ID = "C18"
 RULE = ("about 90 operations on generated inputs (create from JSON and YAML, the same description object created "
-        "twice, parse to yaml/json with/without hierarchy, image boot on both SoCs with and without Kconfig files, mpi "
+        "twice, parse to yaml/json with/without hierarchy, image boot on both SoCs with and without Kconfig files, image update, mpi "
         "generate/merge, cache from payloads/envelope, sign x3 algorithms, encrypt x2, near-collision inputs, three failing "
-        "operations, and 8 REBUILD pairs - create / cache from payloads / cache from envelope / boot / parse / sign / mpi "
+        "operations, and 9 REBUILD pairs - create / cache from payloads / cache from envelope / boot / update / parse / sign / mpi "
         "merge / encrypt on a path that is rewritten with other content of the same size before the operation); reference = each alone in a "
         "fresh interpreter; histories = random orders with repetitions in one interpreter under PYTHONHASHSEED in "
         "{0,1,2,random...}, separate working directories, guard on/off. distinct = (operation, history, position) "
